@@ -11,6 +11,10 @@ import gv
 PROP = "C08"
 REQ_PROPS = ["GV.Props.Props_C08"]
 REQ_RUN = ["GV.Query.RunPat"]
+BINS = ["c08"]
+# tools/seedtest.sh runs a check against a scratch copy of /repo while the normal check may run too:
+# keep the scratch files of the two apart
+TAG = os.environ.get("GV_OUT_TAG", "")
 
 TRUSTED = [
     "Coq 8.16.1 kernel (coqc; vm_compute runs the models; no native_compute)",
@@ -42,7 +46,7 @@ def decide(chk, cases):
     if not ok:
         return False, out
     oi = [i for i, c in enumerate(cases) if c.get("orc")]
-    vals = gv.coq_eval(chk.prop + "_orc", REQ_RUN, [cases[i]["orc"] for i in oi], shard=120)
+    vals = gv.coq_eval(chk.prop + TAG + "_orc", REQ_RUN, [cases[i]["orc"] for i in oi], shard=120)
     fails = []
     for i, v in zip(oi, vals):
         cases[i]["oracle"] = "ok" if v == "true" else "fail"
@@ -50,19 +54,23 @@ def decide(chk, cases):
             fails.append(i)
     open_ids = chk.open_finding_ids()
     ki = [i for i in fails if cases[i].get("kall")]
-    kvals = gv.coq_eval(chk.prop + "_kall", REQ_RUN, [cases[i]["kall"] for i in ki], shard=120)
+    kvals = gv.coq_eval(chk.prop + TAG + "_kall", REQ_RUN, [cases[i]["kall"] for i in ki], shard=120)
     for i, v in zip(ki, kvals):
         bs = parse_bool_list(v)
         ids = cases[i]["kids"]
         hit = [k for k, b in zip(ids, bs) if b == "true"]
-        cases[i]["kclasses"] = hit
-        pick = [k for k in hit if k in open_ids]
+        cases[i]["kclasses"] = sorted(set(hit))
+        pick = [(j, k) for j, (k, b) in enumerate(zip(ids, bs)) if b == "true" and k in open_ids]
         if pick:
-            k = pick[0]
+            idx, k = pick[0]
             cases[i]["kid"] = k
-            # the class predicate re-evaluated by standard_flow: "the chosen class holds"
-            idx = ids.index(k)
+            # re-evaluated by standard_flow: the chosen class holds AND, when the executed plan is inside
+            # the modelled fragment, the model (which transcribes the listed defects and nothing else)
+            # reproduces exactly what the engine returned -- a wrong answer the model does not predict
+            # is never excused by a class
             cases[i]["kcoq"] = "nth %d (%s) false" % (idx, cases[i]["kall"])
+            if cases[i].get("coq"):
+                cases[i]["kcoq"] = "andb (%s) (%s)" % (cases[i]["kcoq"], cases[i]["coq"])
     return True, ""
 
 
@@ -88,7 +96,7 @@ def run_prop(prop, req_props, tier, seed, ncases, rule, assumptions):
                                 "broken": ["correspondence %s: harness build failed" % prop]}, no_input=True)
         return chk.finish(proof)
     rc, so, se, cases, dt = gv.run_harness(binp, ["--seed", seed, "--cases", ncases, "--tier", tier, "--prop", prop],
-                                           os.path.join(gv.BUILD, "out", "%s.jsonl" % prop.lower()))
+                                           os.path.join(gv.BUILD, "out", "%s%s.jsonl" % (prop.lower(), TAG)))
     if rc != 0:
         chk.violation("crash", {"what": "the harness crashed", "stderr": se, "broken": ["harness exit %d" % rc]}, no_input=True)
         return chk.finish(proof)
@@ -127,7 +135,7 @@ ASSUME = [
 
 
 def run(tier, seed):
-    return run_prop(PROP, REQ_PROPS, tier, seed, 1500 if tier == "quick" else 12000, RULE, ASSUME)
+    return run_prop(PROP, REQ_PROPS, tier, seed, 1000 if tier == "quick" else 12000, RULE, ASSUME)
 
 
 def replay(path, tier, seed):
